@@ -575,6 +575,35 @@ struct LayoutScanlineCmpNodePos
             return valU < valV;
         }
 
+        // Differentiate obstacles by their IDs and segments by their
+        // connector and position, rather than by pointer value, so the
+        // order doesn't depend on where the objects were allocated.
+        if (u->v && v->v)
+        {
+            if (u->v->id() != v->v->id())
+            {
+                return u->v->id() < v->v->id();
+            }
+        }
+        else if (u->ss && v->ss)
+        {
+            const LayoutEdgeSegment *lesU =
+                    dynamic_cast<const LayoutEdgeSegment *> (u->ss);
+            const LayoutEdgeSegment *lesV =
+                    dynamic_cast<const LayoutEdgeSegment *> (v->ss);
+            if (lesU && lesV)
+            {
+                if (lesU->connRef->id() != lesV->connRef->id())
+                {
+                    return lesU->connRef->id() < lesV->connRef->id();
+                }
+                if (lesU->indexes.front() != lesV->indexes.front())
+                {
+                    return lesU->indexes.front() < lesV->indexes.front();
+                }
+            }
+        }
+
         return up < vp;
     }
 };
